@@ -45,7 +45,7 @@ class Inst:
     def _mk(self, t, path):
         k = t[0]
         if k in ("u", "i", "enum", "f32", "f64"):
-            self.kinds[path] = (k, t[1] if k in ("u", "i") else None)
+            self.kinds[path] = (k, t[1] if k in ("u", "i", "enum") else None)   # width for ints, type name for enums
         if k == "u":
             return self._int(path, 0, (1 << t[1]) - 1)
         if k == "i":
